@@ -53,22 +53,24 @@ mod set_reach__redecl;
 mod cp__par;
 mod lex_lat__par;
 mod lat_multi_improve__ser;
-mod count_paths__run;
-mod count_paths__runpar;
-mod neg_basic__src0;
-mod neg_basic__perm2;
-mod agg_depth__ser;
+mod count_paths__to;
+mod count_paths__redecl;
+mod neg_basic__topar;
+mod neg_basic__init;
+mod neg_basic__exppar;
+mod agg_depth__topar;
 mod agg_user__pari;
 mod agg_bound_mix__pari;
-mod disj__mrt;
-mod disj__srcpar;
-mod disj_nested__par;
-mod pat_args__exppar;
-mod multi_head_disj__pari;
-mod mac_basic__ser;
-mod mac_basic__src2;
-mod mac_capture__par;
-mod mac_nested__exppar;
+mod disj__pari;
+mod disj__src2;
+mod disj__permpar;
+mod pat_args__ser;
+mod rep_expr__exp;
+mod neg_in_disj__par;
+mod mac_basic__topar;
+mod mac_basic__init;
+mod mac_capture__exp;
+mod mac_disj__par;
 
 fn lookup(name: &str) -> fn() -> Box<dyn Driven> {
    match name {
@@ -117,22 +119,24 @@ fn lookup(name: &str) -> fn() -> Box<dyn Driven> {
       "cp__par" => cp__par::make,
       "lex_lat__par" => lex_lat__par::make,
       "lat_multi_improve__ser" => lat_multi_improve__ser::make,
-      "count_paths__run" => count_paths__run::make,
-      "count_paths__runpar" => count_paths__runpar::make,
-      "neg_basic__src0" => neg_basic__src0::make,
-      "neg_basic__perm2" => neg_basic__perm2::make,
-      "agg_depth__ser" => agg_depth__ser::make,
+      "count_paths__to" => count_paths__to::make,
+      "count_paths__redecl" => count_paths__redecl::make,
+      "neg_basic__topar" => neg_basic__topar::make,
+      "neg_basic__init" => neg_basic__init::make,
+      "neg_basic__exppar" => neg_basic__exppar::make,
+      "agg_depth__topar" => agg_depth__topar::make,
       "agg_user__pari" => agg_user__pari::make,
       "agg_bound_mix__pari" => agg_bound_mix__pari::make,
-      "disj__mrt" => disj__mrt::make,
-      "disj__srcpar" => disj__srcpar::make,
-      "disj_nested__par" => disj_nested__par::make,
-      "pat_args__exppar" => pat_args__exppar::make,
-      "multi_head_disj__pari" => multi_head_disj__pari::make,
-      "mac_basic__ser" => mac_basic__ser::make,
-      "mac_basic__src2" => mac_basic__src2::make,
-      "mac_capture__par" => mac_capture__par::make,
-      "mac_nested__exppar" => mac_nested__exppar::make,
+      "disj__pari" => disj__pari::make,
+      "disj__src2" => disj__src2::make,
+      "disj__permpar" => disj__permpar::make,
+      "pat_args__ser" => pat_args__ser::make,
+      "rep_expr__exp" => rep_expr__exp::make,
+      "neg_in_disj__par" => neg_in_disj__par::make,
+      "mac_basic__topar" => mac_basic__topar::make,
+      "mac_basic__init" => mac_basic__init::make,
+      "mac_capture__exp" => mac_capture__exp::make,
+      "mac_disj__par" => mac_disj__par::make,
       _ => panic!("no such program variant in this shard: {}", name),
    }
 }
